@@ -19,6 +19,8 @@ def seqs(tier, rng):
     n = 1500 if tier == "quick" else 30000
     for _ in range(n):
         out.append(tuple(rng.choice(ELEMS) for _ in range(rng.randint(3, 5))))
+    for _ in range(60 if tier == "quick" else 1500):      # long ones
+        out.append(tuple(rng.choice(ELEMS) for _ in range(rng.choice([8, 9, 12, 16, 17, 24, 33]))))
     return out
 
 def cases(tier, rng):
@@ -29,8 +31,12 @@ def cases(tier, rng):
         out.append(("(mll 0 (%s))" % ts, "constructor"))
         if s and s[-1] in (X, Y, ANON) or rng.random() < 0.3:
             out.append(("(mll 1 (%s))" % ts, "constructor-vbar"))
-        if len(s) >= 1 and len(s) <= 4:
+        if len(s) >= 1 and (len(s) <= 4 or len(s) >= 8):
             out.append(("(bip %s (%s %s) (ss))" % (S("append"), ts, OUT), "append"))
+            # the same with the tail variables bound: to [], to a list, through a chain that ends in []
+            if any(v in ts for v in (Y, Z)) and (len(s) <= 2 or rng.random() < 0.3):
+                for d in ({2: EMPTY, 3: EMPTY}, {2: lst([atom("c")]), 3: lst([atom("a")], Y)}, {3: lst([atom("a")], Y), 2: EMPTY}, {2: Z, 3: EMPTY}):
+                    out.append(("(bip %s (%s %s) %s)" % (S("append"), ts, OUT, ss_from(d)), "append"))
         if s:
             l = lst(list(s))
             out.append(("(bip %s (%s %s %s) (ss))" % (S("include"), ANON, l, OUT), "include-all"))
@@ -48,9 +54,9 @@ def cases(tier, rng):
         if c[0] not in seen: seen.add(c[0]); res.append(c)
     return res
 
-RULE = ("element sequences of length 0-2 (all), 3 (all over a 6-term universe) and 3-5 (random) over atoms, numbers, "
+RULE = ("element sequences of length 0-2 (all), 3 (all over a 6-term universe), 3-5 and 8-33 (random) over atoms, numbers, "
         "variables, $_, [], nested lists with and without tail variable, complex terms; each through make_list_of_terms, "
-        "make_linked_list (with and without vbar; also with the constant Nil among the terms - model-vs-implementation only), append, include/exclude (filters that keep everything but unbound variables) and clause renaming. Oracle on "
+        "make_linked_list (with and without vbar; also with the constant Nil among the terms - model-vs-implementation only), append (also with the tail variables bound to [], to a list and through a chain ending in []), include/exclude (filters that keep everything but unbound variables) and clause renaming. Oracle on "
         "the implementation's own results: the view `elems` (python twin of Spec.SpecLists.elems) of the built list is exactly "
         "the given sequence / the specified splice, every count is the number of nodes, renaming keeps the shape. "
         "Non-trivial = the sequence contains a list-valued or empty-list element or a tail variable.")
@@ -107,7 +113,8 @@ def relations(cases, impl):
                 got = ent[20] if len(ent) > 20 else None
                 if tag == "append":
                     ins = c[2][:-1]
-                    cs = [pyspec.contrib([], t) for t in ins]
+                    ent0 = [None if e == "-" else e for e in c[3][1:]]
+                    cs = [pyspec.contrib(ent0, t) for t in ins]
                     if any(x is None for x in cs): continue
                     exp = [y for x in cs for y in x]
                 else:
